@@ -22,43 +22,273 @@ def TreeFmt.kvOk (f : TreeFmt) (t : T Int Nat) : Prop :=
   ∀ e ∈ t.toList, f.keyOk e.2.1 ∧ e.2.2 < 256 ^ f.val.size
 
 theorem TreeFmt.keyOk_zero (f : TreeFmt) (hf : f.Ok) : f.keyOk 0 := by
-  sorry
+  have _ := hf
+  unfold TreeFmt.keyOk
+  have h1 : (0 : Int) < 2 ^ (8 * f.key.size - 1) := Int.pow_pos (by decide)
+  have h2 : (0 : Int) < 256 ^ f.key.size := Int.pow_pos (by decide)
+  split
+  · omega
+  · omega
+
+/-! ### Subtrees and the free list -/
+
+namespace T
+variable {α β : Type}
+
+theorem isSub_of_sub {i : Nat} {t t' : T α β} (h : t.sub i = some t') : IsSub t' t := by
+  induction t with
+  | nil => simp [sub] at h
+  | node j l k v hh r ihl ihr =>
+    unfold sub at h
+    split at h
+    · cases h; exact .refl _
+    · split at h
+      · rename_i heq
+        cases h; exact .left (ihl heq)
+      · exact .right (ihr h)
+
+theorem IsSub.bal {t' t : T α β} (h : IsSub t' t) (hb : t.Bal) : t'.Bal := by
+  induction h with
+  | refl => exact hb
+  | left _ ih => exact ih hb.1
+  | right _ ih => exact ih hb.2.1
+
+theorem IsSub.toList_mem {t' t : T α β} (h : IsSub t' t) {e : Nat × α × β} (he : e ∈ t'.toList) :
+    e ∈ t.toList := by
+  induction h with
+  | refl => exact he
+  | left _ ih => simp [toList, ih]
+  | right _ ih => simp [toList, ih]
+
+/-- The slot register of a subtree is 0 (sentinel) or one of the slots of the tree. -/
+theorem IsSub.slot_zero_or_mem {t' t : T α β} (h : IsSub t' t) : t'.slot = 0 ∨ t'.slot ∈ t.slots := by
+  cases t' with
+  | nil => exact .inl rfl
+  | node => exact .inr (h.slot_mem (by simp))
+
+end T
+
+/-- The successor on the free list is a member of the free list or the terminator. -/
+theorem freeNext_mem {term : Nat} {fl : List Nat} {i nxt : Nat} (h : freeNext term fl i = some nxt) :
+    nxt ∈ fl ∨ nxt = term := by
+  induction fl with
+  | nil => simp [freeNext] at h
+  | cons a rest ih =>
+    cases rest with
+    | nil =>
+      simp only [freeNext] at h
+      split at h
+      · cases h; exact .inr rfl
+      · cases h
+    | cons b rest =>
+      simp only [freeNext] at h
+      split at h
+      · cases h; exact .inl (by simp)
+      · rcases ih h with h' | h'
+        · exact .inl (List.mem_cons_of_mem _ h')
+        · exact .inr h'
 
 /-- In a well-formed state every register of the layout fits the index width. -/
 theorem Tree.image_bounded (c : TreeCfg) (f : TreeFmt) (hm : f.Matches c) (hf : f.Ok) (s : Tree Int Nat)
     (h : s.Inv c) (hkv : f.kvOk s.root) : (s.image c 0 0).Bounded f := by
-  sorry
+  unfold TreeFmt.Matches at hm
+  have hseq := h.seq_le
+  have hcap := h.cap_le
+  have hsl := h.slots_le
+  have hcnt := h.count
+  have hlen : s.root.slots.length = s.root.size := T.length_slots _
+  have hsz := h.size_eq
+  simp only [List.length_append] at hcnt
+  -- every allocated slot fits
+  have hslot : ∀ i ∈ s.root.slots ++ s.free, i < 256 ^ f.iw := by
+    intro i hi
+    have := h.range i hi
+    omega
+  have hseqReg : s.seqReg c < 256 ^ f.iw := by
+    unfold Tree.seqReg
+    rw [← hm]
+    exact Nat.mod_lt _ (by omega)
+  have hpos : 0 < 256 ^ f.iw := by omega
+  have hk0 := f.keyOk_zero hf
+  have hv0 : 0 < 256 ^ f.val.size := Nat.pow_pos (by decide)
+  refine ⟨⟨?_, ?_, ?_, ?_, hseqReg, ?_⟩, ?_⟩
+  · -- root
+    show s.root.slot < _
+    rcases (T.IsSub.refl s.root).slot_zero_or_mem with h0 | h0
+    · rw [h0]; exact hpos
+    · exact hslot _ (List.mem_append_left _ h0)
+  · show s.size < _; omega
+  · show s.cap < _; omega
+  · show s.flhReg c < _
+    unfold Tree.flhReg
+    split
+    · rename_i i rest heq
+      exact hslot _ (List.mem_append_right _ (by rw [heq]; simp))
+    · exact hseqReg
+  · exact Nat.pow_pos (by decide)
+  · intro rc hrc
+    simp only [Tree.image, List.mem_map, List.mem_range] at hrc
+    obtain ⟨j, _, rfl⟩ := hrc
+    rcases Tree.recAt_trichotomy c 0 0 s h.layoutOk (j + 1) with
+      ⟨_, _, l, k, v, hh, r, hsub, hrec⟩ | ⟨_, _, nxt, hfn, hrec⟩ | ⟨_, _, hrec⟩
+    · rw [hrec]
+      have hs := T.isSub_of_sub hsub
+      have hl : T.IsSub l s.root := T.IsSub.trans (.left (.refl _)) hs
+      have hr : T.IsSub r s.root := T.IsSub.trans (.right (.refl _)) hs
+      have hbal := hs.bal h.bal
+      have hht := T.ht_eq_height hbal
+      have hhl := hs.height_le
+      have hrl := T.height_le_length_slots s.root
+      have he := hkv _ (hs.toList_mem (e := (j + 1, k, v)) (by simp [T.toList]))
+      refine ⟨?_, ?_, ?_, hpos, he.2, he.1⟩
+      · show l.slot < _
+        rcases hl.slot_zero_or_mem with h0 | h0
+        · rw [h0]; exact hpos
+        · exact hslot _ (List.mem_append_left _ h0)
+      · show r.slot < _
+        rcases hr.slot_zero_or_mem with h0 | h0
+        · rw [h0]; exact hpos
+        · exact hslot _ (List.mem_append_left _ h0)
+      · show hh < _
+        simp only [T.ht] at hht
+        omega
+    · rw [hrec]
+      refine ⟨hpos, hpos, ?_, hpos, hv0, hk0⟩
+      show nxt < _
+      rcases freeNext_mem hfn with h0 | h0
+      · exact hslot _ (List.mem_append_right _ h0)
+      · rw [h0]; exact hseqReg
+    · rw [hrec]
+      exact ⟨hpos, hpos, hpos, hpos, hv0, hk0⟩
 
 /-- Bytes → image → state recovers every reachable state (both index widths, any key/value scalars). -/
 theorem Tree.bytes_roundtrip (c : TreeCfg) (f : TreeFmt) (hm : f.Matches c) (hf : f.Ok) (s : Tree Int Nat)
     (h : Tree.Reach c s) (hkv : f.kvOk s.root) :
     (f.ofBytes (f.toBytes (s.image c 0 0))).bind (fun img => img.decode c 0 0) = some s := by
-  sorry
+  have hi := Tree.reach_inv h
+  rw [TreeFmt.ofBytes_toBytes f hf _ (Tree.image_bounded c f hm hf s hi hkv)]
+  exact TreeImage.decode_image c 0 0 s hi.layoutOk
 
 /-- The two concrete formats of the crate match their configurations. -/
 theorem TreeFmt.u8_matches (k v : Scalar) : (TreeFmt.u8 k v).Matches cfgU8 := by
-  sorry
+  simp [TreeFmt.Matches, TreeFmt.u8, cfgU8]
 
 theorem TreeFmt.u32_matches (k v : Scalar) : (TreeFmt.u32 k v).Matches cfgU32 := by
-  sorry
+  simp [TreeFmt.Matches, TreeFmt.u32, cfgU32]
 
 /-! ### Hash set -/
 
 def HFmt.valsOk (f : HFmt) (s : HSet Nat) : Prop := ∀ v ∈ s.members, v < 256 ^ f.val.size
 
+/-- The `next` register of a chain entry is 0 or the slot of an entry of the chain; its value is
+    the value of an entry of the chain. -/
+theorem chainNext_mem {β : Type} {ch : List (Nat × β)} {i nxt : Nat} {v : β}
+    (h : chainNext ch i = some (nxt, v)) :
+    (nxt = 0 ∨ nxt ∈ ch.map (·.1)) ∧ v ∈ ch.map (·.2) := by
+  induction ch with
+  | nil => simp [chainNext] at h
+  | cons e rest ih =>
+    cases rest with
+    | nil =>
+      simp only [chainNext] at h
+      split at h
+      · cases h; exact ⟨.inl rfl, by simp⟩
+      · cases h
+    | cons e' rest =>
+      simp only [chainNext] at h
+      split at h
+      · cases h; exact ⟨.inr (by simp), by simp⟩
+      · obtain ⟨h1, h2⟩ := ih h
+        refine ⟨?_, List.mem_cons_of_mem _ h2⟩
+        rcases h1 with h1 | h1
+        · exact .inl h1
+        · exact .inr (List.mem_cons_of_mem _ h1)
+
+theorem chainsNext_mem' {β : Type} {chains : List (List (Nat × β))} {i nxt : Nat} {v : β}
+    (h : chainsNext chains i = some (nxt, v)) :
+    (nxt = 0 ∨ nxt ∈ (chains.flatMap id).map (·.1)) ∧ v ∈ (chains.flatMap id).map (·.2) := by
+  induction chains with
+  | nil => simp [chainsNext] at h
+  | cons c cs ih =>
+    simp only [chainsNext] at h
+    simp only [List.flatMap_cons, id, List.map_append, List.mem_append]
+    split at h
+    · rename_i r heq
+      cases h
+      obtain ⟨h1, h2⟩ := chainNext_mem heq
+      exact ⟨h1.imp id .inl, .inl h2⟩
+    · obtain ⟨h1, h2⟩ := ih h
+      exact ⟨h1.imp id .inr, .inr h2⟩
+
 theorem HSet.image_bounded (hash : Nat → Nat) (f : HFmt) (hf : f.Ok) (s : HSet Nat) (h : s.Inv hash)
     (hv : f.valsOk s) : (s.image 0).Bounded f := by
-  sorry
+  have _ := hf
+  have h256 : 256 ^ 4 = 4294967296 := by decide
+  have hseq := h.seq_le
+  have hcap := h.cap_le
+  have hsl := h.slots_lt
+  have hsz := h.size_le_cap
+  rw [HImage.Bounded, h256]
+  have hslot : ∀ i ∈ s.liveSlots ++ s.free, i < 4294967296 := by
+    intro i hi
+    have := h.range i hi
+    omega
+  have hv0 : 0 < 256 ^ f.val.size := Nat.pow_pos (by decide)
+  refine ⟨?_, ?_, ?_, ?_, ?_⟩
+  · show s.size < _; omega
+  · show s.cap < _; omega
+  · show s.flhReg < _
+    unfold HSet.flhReg
+    split
+    · rename_i i rest heq
+      exact hslot _ (List.mem_append_right _ (by rw [heq]; simp))
+    · omega
+  · show s.seq < _; omega
+  · intro rc hrc
+    simp only [HSet.image, List.mem_map, List.mem_range] at hrc
+    obtain ⟨j, hj, rfl⟩ := hrc
+    have hb : HSet.headOf (s.chains.getD j []) < 4294967296 := by
+      have hj' : j < s.chains.length := hj
+      rw [List.getD_eq_getElem?_getD, List.getElem?_eq_getElem hj', Option.getD_some]
+      cases hc : s.chains[j] with
+      | nil => simp [HSet.headOf]
+      | cons e rest =>
+        simp only [HSet.headOf]
+        apply hslot _ (List.mem_append_left _ _)
+        refine List.mem_map.2 ⟨e, List.mem_flatMap.2 ⟨s.chains[j], List.getElem_mem _, ?_⟩, rfl⟩
+        rw [hc]; simp
+    unfold HSet.recAt
+    simp only
+    split
+    · rename_i nxt v heq
+      obtain ⟨h1, h2⟩ := chainsNext_mem' heq
+      refine ⟨hb, ?_, hv v h2⟩
+      rcases h1 with h1 | h1
+      · rw [h1]; show (0 : Nat) < 4294967296; decide
+      · exact hslot _ (List.mem_append_left _ h1)
+    · split
+      · rename_i nxt heq
+        refine ⟨hb, ?_, hv0⟩
+        rcases freeNext_mem heq with h0 | h0
+        · exact hslot _ (List.mem_append_right _ h0)
+        · show nxt < _; omega
+      · exact ⟨hb, (by decide : (0 : Nat) < 4294967296), hv0⟩
 
 theorem HSet.bytes_roundtrip (hash : Nat → Nat) (f : HFmt) (hf : f.Ok) (s : HSet Nat) (h : s.Inv hash)
     (hv : f.valsOk s) : (f.ofBytes (f.toBytes (s.image 0))).bind (fun img => img.decode 0) = some s := by
-  sorry
+  rw [HFmt.ofBytes_toBytes f hf _ (HSet.image_bounded hash f hf s h hv)]
+  exact HImage.decode_image 0 s h.layoutOk
 
 /-! ### Array sets -/
 
 theorem ASet.bytes_roundtrip (f : AFmt) (hp : 0 < f.pw) (hv : 0 < f.vsz) (s : ASet Nat)
     (h : s.Inv f.keyOf f.prefixMax) (hvals : ∀ v ∈ s.vals, v < 256 ^ f.vsz) :
     f.ofBytes (f.toBytes s) = some s := by
-  sorry
+  apply AFmt.ofBytes_toBytes f hp hv s _ hvals
+  have h1 := h.len_leP
+  unfold AFmt.prefixMax at h1
+  have h2 : 256 ^ f.pw = 2 ^ (8 * f.pw) := by rw [Nat.pow_mul]
+  have h3 : 0 < 2 ^ (8 * f.pw) := Nat.pow_pos (by decide)
+  omega
 
 end Stevia
